@@ -2,6 +2,7 @@
 import os
 import sys
 import json
+import shutil
 import subprocess
 
 import core
@@ -34,7 +35,12 @@ RULE = ("model tie (unit correspondence of Model/Creators.v + Model/Bencode.v en
         "without trackers from a directory where the strings name nothing; (b) the output file INSIDE the payload directory "
         "(`-o <payload>/x.torrent`, `-o <payload>/<sub>/x.torrent`, `cd <payload> && create -o x.torrent .`, the interactive output "
         "answer), each on a FRESH byte-identical copy of the tree, against a base written elsewhere; (c) automatic piece length "
-        "across a threshold.  Distinct = distinct (tree, creator, variant); non-trivial = the variant differs from the base input.")
+        "across a threshold, and with the large file present as a symbolic link to a file outside the payload; (d) symbolic links, "
+        "six class creators and four CLI routes: the payload spelled THROUGH a symlinked directory (absolute, relative, with .., "
+        "trailing separator, link text relative and absolute, working directory entered through the link), the content path ITSELF a "
+        "symlink to the payload directory / to the single file, and a copy of the tree one of whose entries is a symlink to the same "
+        "bytes elsewhere (a file outside the payload, another file of it, a directory outside it) -- info must be byte-identical to "
+        "that of the plain tree of regular files.  Distinct = distinct (tree, creator, variant); non-trivial = the variant differs from the base input.")
 TRUSTED_BASE = [
     "Coq 8.16.1 kernel; theorems closed under the global context; SHA-1 / SHA-256 are arbitrary functions in every theorem",
     "hand models Model/Creators.v (torrent.py creators, utils._filelist_total), Model/Bencode.v (pyben's encoder) and Spec/PathSem.v "
@@ -44,7 +50,9 @@ TRUSTED_BASE = [
     "runner-side patches: os.listdir/os.scandir order (Path.iterdir of CPython 3.12 calls os.listdir), torrentfile.torrent.datetime, "
     "torrentfile.hasher.BLOCK_SIZE for cases marked patched_constant",
 ]
-ASSUMPTIONS = ["POSIX path flavour; no symbolic links, special files or unreadable entries in the content tree",
+ASSUMPTIONS = ["POSIX path flavour; no special files, unreadable entries, dangling links or link loops in the content tree; symbolic links "
+               "are covered by the aimed end-to-end sequence (d) only -- Model/Creators.v and Spec/PathSem.v are lexical and have no "
+               "notion of a link, their correspondence runs on link-free trees and spellings",
                "file names are valid UTF-8 (a Python str is collapsed to its UTF-8 bytes; code-point order = byte order)",
                "the payload contains at least one file (Hasher([]) raises; excluded by every theorem)",
                "the payload does not change while it is hashed"]
@@ -643,6 +651,148 @@ def outfile_inside_payload(ctx):
                              detail=f"{stolen_route_name(route)}; {variant}")
 
 
+# ------------------------------------------------------------------------------------------------ aimed: symbolic links
+# The creators follow symbolic links (getsize / open / isfile / isdir / listdir) and derive names and paths LEXICALLY from the
+# path as spelled (abspath / relpath / basename do not resolve links).  So a link is not an input of the info dictionary: a
+# payload reached THROUGH a symlinked directory, a content path that IS a symlink to the payload, and a payload one of whose
+# entries is a symlink to the same bytes stored elsewhere all have the relative names, lengths and bytes of the plain tree --
+# info must be byte-identical to that of the plain tree (same basename, same piece length, same options).
+LINK_NODE = cc.D([["a.bin", cc.F(70000, "c08-link-a")],
+                  ["sub", cc.D([["b.bin", cc.F(40000, "c08-link-b")], ["copy of a.bin", cc.F(70000, "c08-link-a")], ["e", cc.F(0, "z")]])]])
+LINK_SINGLE = cc.F(50001, "c08-link-single")
+LINK_LAYOUT = {
+    "base/real/payload": "the plain tree (regular files only); base/real/single.bin a regular file",
+    "base/link": "symlink -> real", "base/abslink": "symlink -> <scratch>/base/real",
+    "viaroot/payload": "symlink -> ../base/real/payload", "viaroot/single.bin": "symlink -> ../base/real/single.bin",
+    "viaroot2/payload": "symlink -> <scratch>/base/real/payload", "viaroot2/single.bin": "symlink -> <scratch>/base/real/single.bin",
+    "store/": "b.bin, a.bin and sub/ with the bytes of the tree, outside every payload",
+    "outer/payload": "copy of the tree with sub/b.bin a symlink -> ../../../store/b.bin",
+    "outer-abs/payload": "copy of the tree with a.bin a symlink -> <scratch>/store/a.bin",
+    "inner/payload": "copy of the tree with 'sub/copy of a.bin' a symlink -> ../a.bin",
+    "outerdir/payload": "copy of the tree with sub a symlink -> ../../store/sub (a directory with the same entries)",
+}
+# (label, payload: dir | file, working directory relative to the scratch directory, content path as spelled; {T} = the scratch directory)
+LINK_VARIANTS = [
+    ("through a symlinked directory, absolute", "dir", ".", "{T}/base/link/payload"),
+    ("through a symlinked directory, relative", "dir", "base", "link/payload"),
+    ("through a symlinked directory whose link text is absolute", "dir", ".", "{T}/base/abslink/payload"),
+    ("through a symlinked directory, relative with ..", "dir", "base/real", "../link/payload"),
+    ("through a symlinked directory, trailing separator", "dir", "base", "link/payload/"),
+    ("working directory entered through the symlinked directory, .", "dir", "base/link/payload", "."),
+    ("the content path is a symlink to the payload directory, absolute", "dir", ".", "{T}/viaroot/payload"),
+    ("the content path is a symlink to the payload directory, relative", "dir", "viaroot", "payload"),
+    ("the content path is a symlink (absolute link text) to the payload directory", "dir", "viaroot2", "./payload"),
+    ("a file of the payload is a symlink to a file outside it", "dir", ".", "{T}/outer/payload"),
+    ("a file of the payload is a symlink (absolute link text) to a file outside it", "dir", "outer-abs", "payload"),
+    ("a file of the payload is a symlink to another file of it", "dir", ".", "{T}/inner/payload"),
+    ("a directory of the payload is a symlink to a directory outside it", "dir", ".", "{T}/outerdir/payload"),
+    ("single file through a symlinked directory, absolute", "file", ".", "{T}/base/link/single.bin"),
+    ("single file through a symlinked directory, relative", "file", "base", "link/single.bin"),
+    ("the content path is a symlink to the single file, absolute", "file", ".", "{T}/viaroot/single.bin"),
+    ("the content path is a symlink to the single file, relative", "file", "viaroot", "single.bin"),
+    ("the content path is a symlink (absolute link text) to the single file", "file", ".", "{T}/viaroot2/single.bin"),
+]
+LINK_BASE = {"dir": (".", "{T}/base/real/payload"), "file": (".", "{T}/base/real/single.bin")}
+
+
+def link_layout(tmp):
+    base, store = os.path.join(tmp, "base"), os.path.join(tmp, "store")
+    if os.path.exists(base):
+        return
+    real = os.path.join(base, "real")
+    cc.write_node(os.path.join(real, "payload"), LINK_NODE)
+    cc.write_node(os.path.join(real, "single.bin"), LINK_SINGLE)
+    os.symlink("real", os.path.join(base, "link"), target_is_directory=True)
+    os.symlink(real, os.path.join(base, "abslink"), target_is_directory=True)
+    for d, prefix in (("viaroot", "../base/real"), ("viaroot2", real)):
+        os.makedirs(os.path.join(tmp, d))
+        os.symlink(prefix + "/payload", os.path.join(tmp, d, "payload"), target_is_directory=True)
+        os.symlink(prefix + "/single.bin", os.path.join(tmp, d, "single.bin"))
+    sub = dict((n, c) for n, c in LINK_NODE[1])["sub"]
+    cc.write_node(os.path.join(store, "sub"), sub)
+    cc.write_node(os.path.join(store, "b.bin"), cc.F(40000, "c08-link-b"))
+    cc.write_node(os.path.join(store, "a.bin"), cc.F(70000, "c08-link-a"))
+    for d, rel, text in (("outer", "sub/b.bin", "../../../store/b.bin"), ("outer-abs", "a.bin", os.path.join(store, "a.bin")),
+                         ("inner", "sub/copy of a.bin", "../a.bin"), ("outerdir", "sub", "../../store/sub")):
+        payload = os.path.join(tmp, d, "payload")
+        cc.write_node(payload, LINK_NODE)
+        p = os.path.join(payload, rel)
+        if os.path.isdir(p):
+            shutil.rmtree(p)
+        else:
+            os.remove(p)
+        os.symlink(text, p)
+    os.makedirs(os.path.join(tmp, "out"))
+    os.makedirs(os.path.join(tmp, "home"))
+
+
+def link_create(tmp, route, cwd_rel, spelling, tag, pl=16384):
+    link_layout(tmp)
+    out = os.path.join(tmp, "out", tag + ".torrent")
+    if os.path.exists(out):
+        os.remove(out)
+    spelling = spelling.replace("{T}", tmp)
+    with cc.patched(cwd=os.path.normpath(os.path.join(tmp, cwd_rel)), clock=T0):
+        if route[0] == "class":
+            from torrentfile import torrent
+            cls, kw = cc.CLASS_OF[route[1]]
+            t = trees.quiet(getattr(torrent, cls), path=spelling, piece_length=pl, progress=0, outfile=out, **dict(kw))
+            trees.quiet(t.write)
+        else:
+            from torrentfile.cli import execute
+            try:
+                trees.quiet(execute, cli_argv(route, spelling, pl, out, {}, BASE_VARIANT))
+            except SystemExit as e:
+                raise RuntimeError(f"the command line exited with {e.code}")
+    return oracle.read(out)
+
+
+def link_judge(tmp, route, label, bases=None):
+    """bases: metafiles of the plain tree already written by this route (the plain tree does not change)"""
+    _, what, cwd_rel, spelling = next(v for v in LINK_VARIANTS if v[0] == label)
+    bases = {} if bases is None else bases
+    try:
+        if (json.dumps(route), what) not in bases:
+            bases[(json.dumps(route), what)] = link_create(tmp, route, *LINK_BASE[what], "base-" + what)
+        base = bases[(json.dumps(route), what)]
+        observe(base)
+    except Exception as e:  # noqa
+        return [("base-raised", "a metafile", f"{type(e).__name__}: {e}")]
+    try:
+        raw = link_create(tmp, route, cwd_rel, spelling, "var")
+    except Exception as e:  # noqa
+        return [("create-raised", "a metafile, as for the plain tree", f"{type(e).__name__}: {str(e)[:300]}")]
+    return compare(base, raw, ())
+
+
+def link_input(route, label):
+    _, what, cwd_rel, spelling = next(v for v in LINK_VARIANTS if v[0] == label)
+    return {"kind": "symlink", "route": route, "route_name": route_name(route), "variant": label, "piece_length": 16384,
+            "working_directory": "<scratch>/" + cwd_rel, "content_path": spelling.replace("{T}", "<scratch>"),
+            "base": {"working_directory": "<scratch>", "content_path": LINK_BASE[what][1].replace("{T}", "<scratch>")},
+            "layout": LINK_LAYOUT, "payload": cc.summary(LINK_NODE if what == "dir" else LINK_SINGLE)}
+
+
+def symlinks(ctx):
+    """
+    aimed: the payload is reached through a symlinked directory (absolute / relative spellings), the content path itself is a
+    symlink to the payload directory / to the single file, or an entry of the payload is a symlink to the same bytes stored
+    elsewhere (a file outside the payload, another file of it, a directory outside it): info must be that of the plain tree.
+    """
+    core.use_repo_in_process()
+    with core.Scratch("vc08l_") as tmp:
+        tmp = os.path.realpath(tmp)
+        os.environ["HOME"] = os.path.join(tmp, "home")
+        bases = {}
+        for route in ROUTES:
+            for label, what, _, _ in LINK_VARIANTS:
+                problems = link_judge(tmp, route, label, bases)
+                ctx.case(key=("symlink", json.dumps(route), label), nontrivial=True,
+                         classes=["variant: symbolic link", "symbolic link: " + label.split(",")[0], route_name(route)])
+                for kind, exp, obs in problems:
+                    ctx.fail(f"{kind}:symbolic link", link_input(route, label), exp, obs, detail=f"{route_name(route)}; {label}")
+
+
 def auto_piece_length(ctx):
     """
     aimed sequence: no piece length given.  The automatically chosen piece length (part of info) must be a function of the payload
@@ -665,6 +815,12 @@ def auto_piece_length(ctx):
         mk(os.path.join(tmp, "A"), 1000)
         mk(os.path.join(tmp, "B"), big)
         mk(os.path.join(tmp, "C"), big)
+        # the same payload with the large file present as a symbolic link to a file stored outside the payload
+        mk(os.path.join(tmp, "L"), 1)
+        os.makedirs(os.path.join(tmp, "store"))
+        os.rename(os.path.join(tmp, "L", "data", "sparse.img"), os.path.join(tmp, "store", "sparse.img"))
+        os.truncate(os.path.join(tmp, "store", "sparse.img"), big)
+        os.symlink("../../store/sparse.img", os.path.join(tmp, "L", "data", "sparse.img"))
         for cls in ("TorrentFile", "TorrentFileV2", "TorrentFileHybrid", "TorrentAssembler"):
             def create(cwd, spelling, out, cls=cls):
                 with cc.patched(cwd=cwd, clock=1):
@@ -679,16 +835,20 @@ def auto_piece_length(ctx):
                 # the tree at A grows across the threshold, then is created again through the very same path string
                 os.truncate(os.path.join(tmp, "A", "data", "sparse.img"), big)
                 grown = create(os.path.join(tmp, "A"), "data", os.path.join(tmp, "a2.torrent"))
+                linked = create(tmp, os.path.join(tmp, "L", "data"), os.path.join(tmp, "l.torrent"))
             except Exception as e:  # noqa
                 ctx.fail("auto-piece-length-create-raised", {"creator": cls}, "metafiles", f"{type(e).__name__}: {e}")
                 continue
             for label, raw in (("same relative path string as an earlier, smaller payload in another working directory", rel),
-                               ("payload grown across the threshold since an earlier create of the same path", grown)):
+                               ("payload grown across the threshold since an earlier create of the same path", grown),
+                               ("the large file is a symbolic link (-> ../../store/sparse.img) to a file outside the payload", linked)):
                 ctx.case(key=("auto-pl", cls, label), classes=["automatic piece length across a threshold", "creator " + cls], nontrivial=True)
                 probs = compare(ref, raw, ())
                 for kind, exp, obs in probs:
-                    ctx.fail(f"{kind}:automatic piece length", {"creator": cls, "sequence": label, "payload": {"f": 10, "sparse.img": big},
-                                                                  "piece_length": "automatic"}, exp, obs)
+                    ctx.fail(f"{kind}:automatic piece length", {"kind": "auto-piece-length", "creator": cls, "sequence": label,
+                                                                  "payload": {"f": 10, "sparse.img": big}, "piece_length": "automatic",
+                                                                  "base": "a byte-identical copy of regular files, absolute path"},
+                             exp, obs)
 
 
 def run(ctx, model_ok):
@@ -698,6 +858,7 @@ def run(ctx, model_ok):
     cc.require_classes(ctx)          # Appendix B: the correspondence generator itself must hit every class twice
     e2e(ctx)
     auto_piece_length(ctx)
+    symlinks(ctx)
     stolen_paths(ctx)
     outfile_inside_payload(ctx)
 
@@ -723,6 +884,30 @@ def replay(ctx, data):
             print("[C08 replay] the variant now agrees with the base (info identical; metafile identical outside creation date"
                   + (" and the announce/seed keys)" if strip_of(inp["variant"]) else ")"))
         return 1 if problems else 0
+    if inp.get("kind") == "symlink":
+        core.use_repo_in_process()
+        with core.Scratch("vc08r_") as tmp:
+            tmp = os.path.realpath(tmp)
+            os.environ["HOME"] = tmp
+            problems = link_judge(tmp, inp["route"], inp["variant"])
+        print(f"[C08 replay] {inp['route_name']}; plain tree {inp.get('payload')} at {inp['base']['content_path']}; variant: "
+              f"{inp['variant']}: content path {inp['content_path']} from {inp['working_directory']}; layout {LINK_LAYOUT}")
+        for kind, exp, obs in problems:
+            print(f"[C08 replay] VIOLATION {kind}\n   base   : {exp}\n   variant: {obs}")
+        if not problems:
+            print("[C08 replay] the variant now agrees with the plain tree (info identical)")
+        return 1 if problems else 0
+    if inp.get("kind") == "auto-piece-length":
+        fresh = core.Ctx("C08", ctx.tier, ctx.seed)
+        auto_piece_length(fresh)
+        hits = [f for f in fresh.failures if f["input"].get("creator") == inp.get("creator")
+                and f["input"].get("sequence") == inp.get("sequence")]
+        print(f"[C08 replay] {inp.get('creator')}, no piece length given; payload {inp.get('payload')}; {inp.get('sequence')}")
+        for f in hits:
+            print(f"[C08 replay] VIOLATION {f['kind']}\n   base   : {f['expected']}\n   variant: {f['observed']}")
+        if not hits:
+            print("[C08 replay] the variant now agrees with the base (info identical)")
+        return 1 if hits else 0
     if inp.get("kind") in ("stolen-path", "outfile-inside"):
         core.use_repo_in_process()
         with core.Scratch("vc08r_") as tmp:
